@@ -96,7 +96,11 @@ def work(job):
                 rec["replay"] = _replay(E, con, fi, ob, seed) if ob.kind != "static" else {"confirmed": False, "why": "static wiring obligation: no input involved"}
                 # known-finding region: is the obligation discharged outside the region?
                 reg = con.known.get(rec["label"]) or con.known.get(_clause_kind(ob.name))
-                if reg is not None:
+                if reg is not None and isinstance(reg[1], tuple) and reg[1][0] == "decision":
+                    # a finding tied to one outcome of an assumed library contract: it covers only the paths that took that outcome
+                    if any(l == reg[1][1] and d == reg[1][2] for l, d in ob.meta.get("branch_log", [])):
+                        rec["known_id"], rec["outside_region"] = reg[0], "discharged"
+                elif reg is not None:
                     rec["known_id"], rec["outside_region"] = _check_outside_region(E, con, fi, ob, reg)
             if ob.status == "undecided" and not undecided_searched.get(con.key):
                 undecided_searched[con.key] = True
